@@ -4,7 +4,7 @@ correspondence K-C16 (table dumps, decomposition-class op sequences, trainer-lev
 configuration sweeps)."""
 import os, re
 from vlib import core
-from checks import c16_mclin
+from checks import c16_mclin, c16_epoch
 
 TRUST = ("Lean 4.33 kernel; axioms at most propext/Classical.choice/Quot.sound (audited per run by #audit_module); ")
 MANIFEST = dict(
@@ -74,7 +74,7 @@ def hname(base):
 
 
 def build(ctx):
-    return ctx.harness(hname("c16"), ["c16l.cpp", "c16.cpp", "c16s.cpp", "c16x.cpp"], repo_sources=SRC)
+    return ctx.harness(hname("c16"), ["c16l.cpp", "c16e.cpp", "c16.cpp", "c16s.cpp", "c16x.cpp"], repo_sources=SRC)
 
 
 def classify(ops, res):
@@ -756,7 +756,7 @@ def run(ctx):
                         "trainer-level tolerances follow from the KKT accuracy bound for a concave dual with PSD Q = M (x) K (kkt_eps_near_optimal is C07's theorem; "
                         "used here as the formula for the tolerance, not re-proved)"]
     translate(ctx)
-    ctx.prove(["SharkVerif.Props.C16"])
+    ctx.prove(["SharkVerif.Props.C16", "SharkVerif.Lemmas.McLinearMcSum", "SharkVerif.Lemmas.McLinearEpoch"])
     if not ctx.quick:
         ctx.leanchecker(["SharkVerif.Props.C16"])
     exe = build(ctx)
@@ -805,6 +805,14 @@ def run(ctx):
     ctx.cov["distinct_nontrivial"] += len({"\n".join(c) for c in mcases})
     ctx.sample({"mclinear_ops": mcases[len(mcases) // 2][:4]})
     correspond_box(ctx, "K-C16-mclinear", mcases, [exe], [drv], max_report=8)
+    # whole runs of QpMcLinear::solve (ACF schedule from the observed random draws, preference update, stopping rule):
+    # pass 1 records the draws / shuffled schedules of a replica that is validated against the real solve() bit for bit
+    re_ = ctx.rng.fork("c16-epoch")
+    ecases = [c16_epoch.gen_epoch_case(re_, ctx) for _ in range(150 if ctx.quick else 1200)]
+    ecases = c16_epoch.add_traces(exe, ecases, ctx)
+    ctx.cov["evaluations"] += len(ecases)
+    ctx.cov["distinct_nontrivial"] += len({"\n".join(c) for c in ecases})
+    correspond_box(ctx, "K-C16-mclinear-epoch", ecases, [exe], [drv], max_report=8)
     # dedicated linear solver, one-epoch sweeps along the observed schedule
     lcases = [gen_linear_case(r, 6 if ctx.quick else 25, ctx) for _ in range(300 if ctx.quick else 1500)]
     lcases = add_schedules(exe, lcases)
